@@ -339,7 +339,8 @@ CHECKS["C07"] = dict(
     category="proof", design_ref="DESIGN.md §6 C07", engine="apply + cluster",
     technique="Lean 4 theorems on the apply pipeline (exactly-once, in-order delivery for every overlap of Ready batches) and on the abstract protocol "
               "(commit order respects real time) + differential correspondence of the real entriesToApply/publishEntries + END-TO-END EXPLORATION on real node "
-              "processes (concurrent clients, SIGKILL/restart/membership faults, porcupine, per-node agreement)",
+              "processes (concurrent clients, SIGKILL/restart/membership faults, network partitions between live nodes through forwarders owned by the harness, "
+              "porcupine, per-node agreement)",
     text="PROVED (kernel-checked): C07.C07_replicas_statement_false - the unrestricted statement (identical keyspaces for any two replicas applying the "
          "same log with their own clocks and random sources) is FALSE, with kernel-evaluated witnesses mirroring the recorded findings (SET EX, EXPIRE, SPOP, "
          "XADD *); C07.C07_replicas_partial / _fl_partial / _same_clock_partial - for logs of Deterministic commands (everything except the random/float "
@@ -359,11 +360,15 @@ CHECKS["C07"] = dict(
          "NOT PROVED - EXPLORATION: the end-to-end statement (linearizable histories, each client its own reply, identical keyspaces on all nodes, no node death) is "
          "checked only on the runs explored: 3 and 5 real node processes on loopback, 4-16 concurrent RESP clients against random nodes, SIGKILL of followers / the "
          "leader / a minority / all nodes at random instants and restart from disk, snapshot-threshold crossings, a follower caught up by MsgSnap, rconf add/delete; "
+         "NETWORK PARTITIONS between live nodes (proxied links: every directed raft link is a TCP forwarder of the harness that can be cut and healed; fault kinds "
+         "isolate-leader - held until the majority side has a new leader, the old one is never told since no CheckQuorum is configured -, isolate-follower, split "
+         "(one follower <-> leader link), partition-leader-minority, isolate-follower-snap; clients on all nodes incl. one read-only client pinned to every node, "
+         "1.5 s per-command deadline (pinned reads 0.8 s) = unknown outcome, a read answered by a cut-off node must linearize); "
          "per-key linearizability by porcupine (commands with broken connections = unknown outcome), a read of every key through every node at quiescence, process liveness.",
     note="Level: proof for replica agreement on the deterministic fragment of the model, for the apply pipeline and the real-time order of the abstract protocol; exploration / fault enumeration on real processes for everything "
          "end to end (no proof that etcd raft + rafthttp + goroutines implement the abstract protocol; C15 ties raft.RawNode by lock-step). Workload restricted to "
          "log-deterministic commands: relative TTLs, SPOP/SRANDMEMBER and XADD * diverge between replicas (known findings C07, each with a minimal scenario run on "
-         "every check). No network partitions or disk faults; SIGKILL keeps the page cache. Trusted: Lean kernel (propext, Classical.choice, Quot.sound), harness, "
+         "every check). Partitions are symmetric cuts of whole links (no one-way loss, no delay or reordering inside a connection); no disk faults; SIGKILL keeps the page cache. Trusted: Lean kernel (propext, Classical.choice, Quot.sound), harness, "
          "porcupine, the sequential model in harness/conc.go.",
 )
 
@@ -390,7 +395,9 @@ CHECKS["C08"] = dict(
          "state with LoadSnapshot on every run (exec lines G/L/LB, mutated snapshots). "
          "NOT PROVED - FAULT ENUMERATION: 'reads on every node reflect every acknowledged write after any crash/restart combination' is checked only on the runs "
          "explored: workloads of several hundred writes with VERIF_SNAPCOUNT=5/20/50, SIGKILL of any subset including all nodes at random instants, restart in random order, "
-         "then every key read through every node (linearizability incl. those reads, per-node agreement, ledger of acknowledged INCR/SADD), process liveness at snapshot points.",
+         "then every key read through every node (linearizability incl. those reads, per-node agreement, ledger of acknowledged INCR/SADD), process liveness at snapshot points; "
+         "thorough tier: network partitions between live nodes (proxied links, see C07) across the snapshot threshold - a live follower cut off, compacted past, healed and caught up by "
+         "MsgSnap - combined with full restarts.",
     note="Level: proof for the recovery function conditional on F4, C16 (WAL read-back) and snapshot serialisation; fault enumeration on real processes for the end-to-end "
          "statement; readyloop is an oracle on the real loop over generated schedules, not a proof about the loop. SIGKILL does not drop the page cache: fsync placement / power "
          "loss are not exercised (readyloop's crash image = the files as a reader sees them, i.e. without what the WAL encoder still buffers; written-but-unsynced pages are visible to it). Known finding C08: an added member's URL is lost after compaction "
